@@ -57,7 +57,8 @@ func runC11(res *Result, d *Driver, tier string, seed uint64) {
 		fatal("container: %v", err)
 	}
 	defer env.Close()
-	for i := 0; i < n; i++ {
+	hung := 0
+	for i := 0; i < n && hung < 3; i++ {
 		for _, rn := range []string{"ptrace", "unshare", "container"} {
 			p := progs[rng.Intn(len(progs))]
 			var delay time.Duration
@@ -85,21 +86,47 @@ func runC11(res *Result, d *Driver, tier string, seed uint64) {
 			manyFiles := rn == "ptrace" && rng.Chance(40)
 			t0 := time.Now()
 			var r runner.Result
-			switch rn {
-			case "ptrace":
-				if manyFiles {
-					r = runPtraceManyFiles(spec, 600)
-				} else {
-					r, _ = runPtraceProbe(spec)
+			syncAfter := rng.Bool()
+			key := fmt.Sprintf("%s %s cancel@%v manyfiles=%v", rn, p.name, delay, manyFiles)
+			rch := make(chan runner.Result, 1)
+			go func() {
+				var r runner.Result
+				switch rn {
+				case "ptrace":
+					if manyFiles {
+						r = runPtraceManyFiles(spec, 600)
+					} else {
+						r, _ = runPtraceProbe(spec)
+					}
+				case "unshare":
+					r, _ = runUnshareProbe(spec, "", nil)
+				default:
+					r, _ = env.runProbe(spec, syncAfter)
 				}
-			case "unshare":
-				r, _ = runUnshareProbe(spec, "", nil)
-			default:
-				r, _ = env.runProbe(spec, rng.Bool())
+				rch <- r
+			}()
+			select {
+			case r = <-rch:
+			case <-time.After(3 * bound):
+				// the run never came back: a violation with this run as its input, not a harness time-out
+				cancel()
+				hung++
+				res.Case(key+itoa(i), true, rn+"-"+p.name)
+				res.Mismatch(Mismatch{Kind: "oracle", What: "cancel ends the run promptly with a truthful verdict (C11)", Input: key, Impl: fmt.Sprintf("Run did not return within %v of a cancellation at %v (program pid %d)", 3*bound, delay, pid), Oracle: "violates"})
+				if pid > 0 {
+					syscall.Kill(-pid, syscall.SIGKILL)
+					syscall.Kill(pid, syscall.SIGKILL)
+				}
+				if rn == "container" {
+					go env.Close()
+					if env, err = newEnv(container.Builder{}); err != nil {
+						fatal("container: %v", err)
+					}
+				}
+				continue
 			}
 			el := time.Since(t0)
 			cancel()
-			key := fmt.Sprintf("%s %s cancel@%v manyfiles=%v", rn, p.name, delay, manyFiles)
 			res.Case(key+itoa(i), true, rn+"-"+p.name)
 			res.Traces++
 			var bad []string
